@@ -29,7 +29,7 @@ LEVEL = 'fault_enumeration'
 RULE = ('label sets of 7 small really-rendered documents x {HTML5, XHTML}; per saved file: every byte prefix, '
         'every single-bit flip, every 2-bit flip in the stated window (quick: all bit pairs inside the first 13 '
         'bytes [PROTO, FRAME, first opcode] and inside every 2-byte window starting at an opcode boundary; '
-        'thorough: additionally all bit pairs at byte distance <= 6 and first-13-bytes x whole-file pairs), a menu of '
+        'thorough: additionally all bit pairs at byte distance <= 8 and first-13-bytes x whole-file pairs), a menu of '
         'foreign files; plus round-trip / cross-document / faulted-previous-file renders through the real call '
         'sites, and a BFS over persist/restore/corrupt histories on one file with two renderer keys; a case is '
         'non-trivial when the file content presented to plasTeX differs from the intact saved file (fault cases) or '
@@ -114,6 +114,7 @@ See \ref{sec:é x}.
 ''',
 }
 POOL = ['sec', 'eq', 'float', 'mix', 'uni', 'thm', 'empty']      # 'sec2' is the revision used by the BFS only
+PAIRS = ['empty+sec', 'sec+sec2']     # file saved by the first document, met by a run of the second (fault kinds only)
 
 
 # ---------------------------------------------------------------------------
@@ -139,6 +140,14 @@ def limit(seconds):
     finally:
         signal.setitimer(signal.ITIMER_REAL, 0)
         signal.signal(signal.SIGALRM, old)
+
+
+def _mkdtemp():
+    """Scratch directory (removed by the caller); on tmpfs when there is one -- a case does ~6 file operations."""
+    shm = '/dev/shm'
+    if os.path.isdir(shm) and os.access(shm, os.W_OK):
+        return tempfile.mkdtemp(prefix='vp-c20-', dir=shm)
+    return tempfile.mkdtemp(prefix='vp-c20-')
 
 
 def _read(path):
@@ -219,7 +228,7 @@ def render(src, rname, jobname='job', pre=None):
     from plasTeX.Logging import disableLogging
     vstate.reset()
     res = {'exc': None, 'paux': None, 'captured': None, 'files': [], 'pages': {}, 'ctx_labels': {}}
-    wd = tempfile.mkdtemp(prefix='vp-c20-')
+    wd = _mkdtemp()
     old = os.getcwd()
     os.chdir(wd)
     try:
@@ -385,6 +394,24 @@ def labels_match(mode, want, got):
 # ---------------------------------------------------------------------------
 # E3: one faulted file
 # ---------------------------------------------------------------------------
+def check_reload(path, rtype, current, Q):
+    """The run after a successful save restores the re-saved file: the complete current label set must be there.
+    -> (observation, problem or '', deviation ids)"""
+    st3, got3, warn3, _ = obs_restore(path, rtype)
+    cur_view = {k: M.node_view(v) for k, v in current.items()}
+    miss = [k for k in cur_view if not M.same(got3.get(k), cur_view[k])]
+    rmode, rwant = M.restore(Q, rtype)
+    if st3 != 'ok':
+        return st3, 'restore %s on the re-saved file' % st3, []
+    if miss:
+        o = 'missing %r' % (miss[:4],)
+        if rmode == 'subset' and not labels_match(rmode, rwant, got3) and warn3 is False:
+            return o, '', [DEV_STALE]       # restore aborted at a malformed entry that persist carried over
+        return o, 're-saved file does not restore the complete current label set: missing %r' % (miss[:4],), []
+    msg = labels_match(rmode, rwant, got3)
+    return 'ok', ('reload: ' + msg) if msg else '', []
+
+
 DEV_WARN = 'C20.RESTORE_ABORT_LEAVES_WARNINGS_OFF'
 DEV_JUNK = 'C20.PERSIST_RAISES_ON_NON_MAPPING_UNDER_RENDERER_KEY'
 DEV_STALE = 'C20.STALE_MALFORMED_ENTRY_KEPT_BLOCKS_RELOAD'
@@ -461,23 +488,11 @@ def judge_file(faulted, rtype, current, pctx, path, second=None):
 
     # -- the next run restores the re-saved file -------------------------------
     if reload_needed:
-        st3, got3, warn3, _ = obs_restore(path, rtype)
-        obs['reload'] = st3
-        cur_view = {k: M.node_view(v) for k, v in current.items()}
-        miss = [k for k in cur_view if not M.same(got3.get(k), cur_view[k])]
-        rmode, rwant = M.restore(Q, rtype)
-        if st3 != 'ok':
-            problems.append('restore %s on the re-saved file' % st3)
-        elif miss:
-            obs['reload'] = 'missing %r' % (miss[:4],)
-            if rmode == 'subset' and not labels_match(rmode, rwant, got3) and warn3 is False:
-                devs.append(DEV_STALE)
-            else:
-                problems.append('re-saved file does not restore the complete current label set: missing %r' % (miss[:4],))
-        else:
-            msg = labels_match(rmode, rwant, got3)
-            if msg:
-                problems.append('reload: ' + msg)
+        robs, rprob, rdevs = check_reload(path, rtype, current, Q)
+        obs['reload'] = robs
+        if rprob:
+            problems.append(rprob)
+        devs.extend(rdevs)
 
     outcome = ('%s:%s' % P if P[0] == 'GARBAGE' else P[0], mode, len(got), warn, ps, obs.get('resaved'), obs.get('reload'))
     expected = {'restore': 'ok', 'restored': sorted(map(repr, want)) if mode == 'exact' else 'any subset of %r' % sorted(map(repr, want)),
@@ -532,7 +547,7 @@ def flip2_partners(data, tier, ops=None):
     return partners
 
 
-DIST = 6
+DIST = 8
 
 
 def foreign_menu(rname, base, other_bytes):
@@ -573,6 +588,7 @@ def foreign_menu(rname, base, other_bytes):
 
 def fault_index_size(doc, rname, kind, tier):
     """Faults of one kind are addressed by an index range; for flip2 the index is the FIRST bit."""
+    doc = _base_doc(doc)
     base = saved(doc, rname)['paux']
     n = len(base)
     if kind == 'prefix':
@@ -586,6 +602,7 @@ def fault_index_size(doc, rname, kind, tier):
 
 def fault_iter(doc, rname, kind, tier, lo, hi):
     """Canonical enumeration of the fault descriptors (JSON-able lists) with index in [lo, hi)."""
+    doc = _base_doc(doc)
     base = saved(doc, rname)['paux']
     if kind == 'prefix':
         for k in range(lo, hi):
@@ -610,7 +627,7 @@ def fault_blocks(doc, rname, kind, tier, target):
     n = fault_index_size(doc, rname, kind, tier)
     if kind != 'flip2':
         return [(lo, min(n, lo + target)) for lo in range(0, n, target)], n
-    partners = flip2_partners(saved(doc, rname)['paux'], tier)
+    partners = flip2_partners(saved(_base_doc(doc), rname)['paux'], tier)
     out, lo, acc, total = [], 0, 0, 0
     for i in range(n):
         c = len(partners(i))
@@ -625,6 +642,7 @@ def fault_blocks(doc, rname, kind, tier, target):
 
 
 def apply_fault(doc, rname, fault):
+    doc = _base_doc(doc)
     base = saved(doc, rname)['paux']
     if fault[0] == 'prefix':
         return base[:fault[1]]
@@ -638,20 +656,32 @@ def apply_fault(doc, rname, fault):
     raise ValueError(fault)
 
 
+def _base_doc(doc):
+    """'empty+sec' = the file saved by document 'empty', met by a run of document 'sec' (the document gained
+    labels since the file was written); plain names use the same document for both."""
+    return doc.split('+')[0]
+
+
+def _cur_doc(doc):
+    return doc.split('+')[-1]
+
+
 def _second_doc(doc):
-    return 'eq' if doc == 'sec' else 'sec'
+    return 'eq' if 'sec' in doc.split('+') else 'sec'
 
 
 class Env(object):
     """Everything a fault case of (doc, rname) needs; scratch directory owned by the caller."""
 
     def __init__(self, doc, rname, tmp):
-        s = saved(doc, rname)
-        if s['exc'] or s['paux'] is None or s['captured'] is None:
-            raise RuntimeError('pool document %s/%s did not render: %s' % (doc, rname, s['exc']))
+        s = saved(_base_doc(doc), rname)
+        c = saved(_cur_doc(doc), rname)
+        for x in (s, c):
+            if x['exc'] or x['paux'] is None or x['captured'] is None:
+                raise RuntimeError('pool document %s/%s did not render: %s' % (doc, rname, x['exc']))
         self.doc, self.rname = doc, rname
         self.base = s['paux']
-        self.current = s['captured']
+        self.current = c['captured']
         self.pctx = persist_ctx(self.current)
         self.path = os.path.join(tmp, 'job.paux')
         s2 = saved(_second_doc(doc), rname)
@@ -671,7 +701,7 @@ def _fault_block(arg):
     doc, rname, kind, faults = arg
     _harden_child()
     rep = core.Report()
-    tmp = tempfile.mkdtemp(prefix='vp-c20-')
+    tmp = _mkdtemp()
     try:
         env = Env(doc, rname, tmp)
         for fault in faults:
@@ -692,6 +722,7 @@ def _fault_block(arg):
             elif r['verdict'] == 'known':
                 for f in r['fids']:
                     rep.known_finding(f, case, r['detail'])
+                    rep.count('deviation.%s.%s' % (kind, f.split('.')[1]))
             else:
                 rep.violation(case, r['expected'], r['observed'], r['detail'])
     finally:
@@ -754,7 +785,7 @@ def _rt_checks(doc, rname):
         target = str(a.get('url', '')).split('#')[0]
         if target and target not in s['files']:
             out.append(('target', True, 'target file of label %r was not produced' % label, target, s['files']))
-    tmp = tempfile.mkdtemp(prefix='vp-c20-')
+    tmp = _mkdtemp()
     try:
         path = os.path.join(tmp, 'a.paux')
         _write(path, s['paux'])
@@ -964,6 +995,8 @@ def _corrupt(data, op):
                 return 'disabled'
             b[19] ^= 0x01                  # last character of the first top-level key: HTML5 -> HTML4, XHTML -> XHTMM
         else:
+            if len(b) < 3:
+                return 'disabled'
             b[len(b) - 3] ^= 0x01          # inside the tail of the last entry
         return bytes(b)
     raise ValueError(op)
@@ -1022,6 +1055,13 @@ class _BfsWorld(object):
         msg = M.persist_ok(pmode, pwant, Q, rname)
         if msg:
             return after, 'violation', [], exp, obs, 'persist: ' + msg
+        robs, rprob, rdevs = check_reload(self.path, rname, cur, Q)
+        exp['reload'] = 'ok'
+        obs['reload'] = robs
+        if rprob:
+            return after, 'violation', [], exp, obs, rprob
+        if rdevs:
+            return after, 'known', rdevs, exp, obs, 'restore of the re-saved file stops at a stale malformed entry'
         return after, 'ok', [], exp, obs, ''
 
     def build(self, history):
@@ -1040,7 +1080,7 @@ def _bfs_chunk(arg):
     _harden_child()
     rep = core.Report()
     succ = []
-    tmp = tempfile.mkdtemp(prefix='vp-c20-')
+    tmp = _mkdtemp()
     try:
         w = _BfsWorld(tmp)
         ops = bfs_ops(tier)
@@ -1064,6 +1104,7 @@ def _bfs_chunk(arg):
                 if v == 'known':
                     for f in fids:
                         rep.known_finding(f, case, detail)
+                        rep.count('deviation.bfs.%s' % f.split('.')[1])
                 elif v == 'violation':
                     rep.violation(case, exp, obs, detail)
                     continue
@@ -1126,7 +1167,7 @@ def _judge_case(case):
     kind = case['kind']
     if kind == 'fault':
         _harden_child()
-        tmp = tempfile.mkdtemp(prefix='vp-c20-')
+        tmp = _mkdtemp()
         try:
             env = Env(case['doc'], case['rname'], tmp)
             r = env.judge(case['fault'])
@@ -1147,7 +1188,7 @@ def _judge_case(case):
         return {'verdict': v, 'fids': fids, 'expected': exp, 'observed': obs, 'detail': prob}
     if kind == 'bfs':
         _harden_child()
-        tmp = tempfile.mkdtemp(prefix='vp-c20-')
+        tmp = _mkdtemp()
         try:
             w = _BfsWorld(tmp)
             hist = case['history']
@@ -1178,6 +1219,8 @@ def run(tier, seed, rep):
     quick = tier == 'quick'
     docs = list(POOL)
     keys = [(d, r) for d in docs + ['sec2'] for r in RENDERERS]
+    import time
+    t0 = time.time()
     prewarm(keys)
     blocks = []
     sizes = {}
@@ -1190,8 +1233,10 @@ def run(tier, seed, rep):
             if not quick or d in ('sec', 'mix', 'uni', 'empty'):
                 for name in PREV_FAULTS:
                     blocks.append(('prev', d, r, name))
-            s = saved(d, r)
-            if s['exc'] or s['paux'] is None or s['captured'] is None:
+    ok = lambda d, r: not (saved(d, r)['exc'] or saved(d, r)['paux'] is None or saved(d, r)['captured'] is None)
+    for d in docs + PAIRS:
+        for r in RENDERERS:
+            if not (ok(_base_doc(d), r) and ok(_cur_doc(d), r) and ok(_second_doc(d), r) and ok(_base_doc(d), _other(r))):
                 continue                      # reported by the 'rt' block
             for kind in ('prefix', 'flip1', 'flip2', 'foreign'):
                 ranges, n = fault_blocks(d, r, kind, tier, 3000 if kind == 'flip2' else 800)
@@ -1199,11 +1244,16 @@ def run(tier, seed, rep):
                 for lo, hi in ranges:
                     blocks.append(('fault', d, r, kind, tier, lo, hi))
     blocks = core.rotate(blocks, seed)
+    import time
+    t1 = time.time()
     core.merge_all(run_block, blocks, rep)
-    depth = 4 if quick else 5
+    t2 = time.time()
+    depth = 5 if quick else 7
     bfs = run_bfs(tier, depth, rep)
+    if os.environ.get('VP_C20_TIMING'):
+        print('timing: prewarm %.1fs blocks %.1fs bfs %.1fs' % (t1 - t0, t2 - t1, time.time() - t2))
     bounds = {
-        'documents': docs, 'renderers': list(RENDERERS),
+        'documents': docs, 'file_x_current_pairs': PAIRS, 'renderers': list(RENDERERS),
         'saved_file_bytes': {'%s/%s' % k: len(v['paux'] or b'') for k, v in sorted(_SAVED.items())},
         'fault_space_sizes': sizes,
         'flip2_window': ('all bit pairs in bytes [0,%d) + all bit pairs inside [p,p+2) for every opcode position p' % HEAD)
